@@ -5,20 +5,17 @@ let vec_of_sx = function
 let sx_of_lat (s, q) = L [sx_of_z s; sx_of_z q]
 let sx_of_box b = L [sx_of_z b.c13_lat_lo; sx_of_z b.c13_lat_hi; sx_of_z b.c13_lon_lo; sx_of_z b.c13_lon_hi]
 let edge_of_sx = function
-  | L [lat1; lon1; lat2; emax; emin; c1max; c2max; c1min; c2min; here] ->
+  | L [lat1; lon1; lat2; emax; emin; here] ->
       { c13_lat1 = z_of_sx lat1; c13_lon1 = z_of_sx lon1; c13_lat2 = z_of_sx lat2;
-        c13_emax = z_of_sx emax; c13_emin = z_of_sx emin;
-        c13_c1max = bool_of_sx c1max; c13_c2max = bool_of_sx c2max;
-        c13_c1min = bool_of_sx c1min; c13_c2min = bool_of_sx c2min; c13_pole_here = bool_of_sx here }
+        c13_emax = z_of_sx emax; c13_emin = z_of_sx emin; c13_pole_here = bool_of_sx here }
   | _ -> failwith "edge_of_sx"
 
-(* (P H has_north has_south (edge ...)) -> (faithful_box repaired_box) *)
+(* (P H has_north has_south (edge ...)) -> box *)
 let cmd_bounds (x : sx) : sx =
   match x with
   | L [p; h; hn; hs; es] ->
       let p = z_of_sx p and h = z_of_sx h and es = list_of_sx edge_of_sx es in
-      L [ sx_of_box (c13_face_bounds p h (bool_of_sx hn) (bool_of_sx hs) es);
-          sx_of_box (c13_bounds_repaired p h es) ]
+      sx_of_box (c13_face_bounds p h (bool_of_sx hn) (bool_of_sx hs) es)
   | _ -> failwith "bounds: expected (P H hn hs edges)"
 
 (* ((a b) ...) integer direction vectors of the edges -> ((max min) ...) as (s q): sin(lat) = s / sqrt q *)
